@@ -28,7 +28,7 @@ let run_hist ?(spec_like = false) (noop : bool) (step : world -> wop -> (world *
         (match c with
          | "go" when (match cb_owner_at !w (ni (arg 1)) with None -> true | Some (i, _) -> not (created (int_of_nat i))) ->
            add (match cb_owner_at !w (ni (arg 1)) with None -> "go=dead" | Some _ -> "go=notcreated")
-         | ("l" | "il" | "gs" | "lb" | "ilb" | "fa") when not (created (arg 1)) -> add (c ^ "=notcreated")
+         | ("l" | "il" | "gs" | "lb" | "ilb" | "fa" | "occ") when not (created (arg 1)) -> add (c ^ "=notcreated")
          | "lb" | "ilb" | "fa" -> if noop then add (c ^ "=skip") else
              (* by-name lookup through a reused caller buffer: the address is the named function's, whatever was looked up before *)
              let op = if c = "lb" then WLookup (ni (arg 1), zi (arg 2)) else WILookup (ni (arg 1), zi (arg 2)) in
@@ -83,6 +83,7 @@ let run_hist ?(spec_like = false) (noop : bool) (step : world -> wop -> (world *
            if j = j2 || cb_owner_at !w (ni j) <> None then add "mc=skip"
            else (match apply (WMoveCtor (ni j, ni j2)) with Some _ -> add "mc=ok" | None -> abort ())
          | "ma" -> (match apply (WMoveAssign (ni (arg 1), ni (arg 2))) with Some _ -> add "ma=ok" | None -> abort ())
+         | "occ" -> add ("occ=" ^ string_of_int (List.length (reachable !w (ni (arg 1)))))
          | "q" -> (match apply (WIsUnreg (ni (arg 1))) with Some (OBool b) -> add (if b then "q=1" else "q=0") | _ -> abort ())
          | "go" ->
            (match cb_owner_at !w (ni (arg 1)) with
